@@ -52,12 +52,22 @@ def catalogue(tier: str):
         ('chain2-f2', P1(shapes['chain2']), 2, {}, True),
         ('prev-f2', P1(shapes['prev']), 2, {}, True),
         ('and-f1', P1(shapes['and']), 1, {}, True),
+        # a custom output (message differs from the output name)
+        ('custom-f1', P1(shapes['custom']), 1, {}, True),
         # cylc play --holdcp=1
         ('prevb-f2-holdpoint', P1(shapes['prevb']), 2,
          {'options': {'holdcp': '1'}, 'hold': 1}, True),
         # a broadcast to a task that has not run yet
         ('chain2-f1-broadcast', P1(shapes['chain2']), 1,
          {'preamble': [bc]}, True),
+        # two settings broadcast and one of them cancelled before the next
+        # main-loop iteration (one database flush window)
+        ('chain2-f1-broadcast-cancel', P1(shapes['chain2']), 1,
+         {'preamble': [('broadcasts', [
+             ('set', ['1'], ['b'], [{'environment': {'X': '1'}},
+                                    {'environment': {'Y': '2'}}]),
+             ('clear', ['1'], ['b'], [{'environment': {'X': '1'}}])])]},
+         True),
         # an xtrigger (satisfied once, remembered across the restart)
         ('chain2-f1-xtrigger', P1(shapes['chain2']), 1,
          {'xtriggers': {'x': 'echo(succeed=True)'},
@@ -143,7 +153,7 @@ def run(ctx: Ctx) -> Result:
         ctx, [make_factory(s, ctx.tier) for s in specs],
         max_states=ctx.pick(6000, 60000),
         max_seconds=int(os.environ.get(
-            'VERIF_MAX_SECONDS', ctx.pick(110, 1700))))
+            'VERIF_MAX_SECONDS', ctx.pick(170, 1700))))
     counts = COUNTS.collect(ctx.scratch)
     if not st.violations and not st.error and not st.capped:
         missing = [k for k in NEEDED if not counts.get(k)]
